@@ -20,13 +20,15 @@ CFG_MIX = {
     "values": (3,), "index_values": (0, 1), "templates": ("mul2", "add", "dbl", "total", "dyn", "dynx", "abs2", "pair1", "cplx"),
     "iops": (("sub", ("lit", 1)),), "unreg": True, "setc": True, "funs": ("F1",), "knobs": ("K1",),
 }
-CFG_REDUCED = {"values": (3,), "templates": ("mul2", "inc"), "unreg": True}
+# fsetset: an assignment whose first attempt fails at its first dependant write (caught by the caller) and which is then repeated
+CFG_REDUCED = {"values": (3,), "templates": ("mul2", "inc"), "unreg": True, "fsetset": True}
 CFG_REDUCED_T = {"values": (3,), "templates": ("mul2", "inc", "neg"), "iops": (("add", ("lit", 1)),),
                  "unreg": True}
 
 # in-place operators whose operand is a REF, on few locations, deeper
-CFG_IOPREF = {"values": (3, 5), "templates": ("mul2",), "iops": (("add", ("src",)), ("sub", ("src",)), ("mul", ("lit", 2))), "unreg": True,
-              "leaves_n": 3}
+# ... and REPEATED in-place updates with a plain operand on an expression-defined location ((e - 1) - 1)
+CFG_IOPREF = {"values": (3, 5), "templates": ("mul2",), "iops": (("add", ("src",)), ("sub", ("src",)), ("mul", ("lit", 2)), ("sub", ("lit", 1))),
+              "unreg": True, "leaves_n": 3}
 # two linear knobs sharing a target, plain values assigned to knob targets, a reader of a knob target
 CFG_KNOBS = {"values": (3, 5), "templates": ("mul2",), "knobs": ("K1", "K2")}
 # a reader of a whole container, a reader of one member and of the first reader's result, pushes into the member; functions
@@ -48,6 +50,8 @@ ALPHABETS = {"coincide": CFG_COINCIDE, "mixr": CFG_MIXR, "special": CFG_SPECIAL,
 
 def alphabet_for(world, name):
     cfg = dict(ALPHABETS[name])
+    if cfg.pop("fsetset", False):
+        cfg["extra"] = list(cfg.get("extra", [])) + [("fsetset", L, 5, 1) for L in world["leaves"]]
     n = cfg.pop("leaves_n", None)
     if n:
         cfg["leaves"] = world["leaves"][:n]
